@@ -67,7 +67,7 @@ import signal
 import sys
 import tempfile
 
-sys.path.insert(0, "/verif")
+sys.path.insert(0, __import__("os").path.dirname(__import__("os").path.dirname(__import__("os").path.dirname(__import__("os").path.abspath(__file__)))))
 
 from harness import timeouts as _T  # noqa: E402
 
